@@ -24,6 +24,8 @@ use crate::shared;
 /// Algorithm specialized for radixes of powers-of-two.
 #[cfg_attr(not(feature = "compact"), inline(always))]
 pub fn binary<F: RawFloat, const FORMAT: u128>(num: &Number, lossy: bool) -> ExtendedFloat80 {
+    #[cfg(lexical_verif)]
+    lexical_util::verif::hit(lexical_util::verif::PARSE_BINARY);
     let format = NumberFormat::<{ FORMAT }> {};
     debug_assert!(
         matches!(format.radix(), 2 | 4 | 8 | 16 | 32),
@@ -163,6 +165,8 @@ pub fn parse_u64_digits<'a, Iter, const FORMAT: u128>(
 /// This avoids the need for arbitrary-precision arithmetic, since the result
 /// will always be a near-halfway representation where rounded-down it's even.
 pub fn slow_binary<F: RawFloat, const FORMAT: u128>(num: Number) -> ExtendedFloat80 {
+    #[cfg(lexical_verif)]
+    lexical_util::verif::hit(lexical_util::verif::PARSE_SLOW_BINARY);
     let format = NumberFormat::<{ FORMAT }> {};
     let radix = format.radix();
     debug_assert!(matches!(radix, 2 | 4 | 8 | 16 | 32), "algorithm requires a power-of-two");
